@@ -7,6 +7,7 @@ CONSTANTS
   Acts = {"Alloc", "Unroot", "Spawn", "Collect", "Cell", "HostMove"}
   TwoVMs = FALSE
   Emit = FALSE
+  Traps = {}
   Mutant = "cellnoclone"
 VIEW View
 INVARIANTS TypeOK Isolation NoDangling
